@@ -164,6 +164,10 @@ Proof.
     destruct (index (text s) (cur s - 2)); [|inversion E; reflexivity].
     destruct (index (text s) (cur s - 1)); inversion E; subst; [apply cfg_set_text|reflexivity].
   - inversion E; subst. apply cfg_validate_sync.
+  - unfold reset_buf in E. destruct ((len t <? p) || (p <? 0)); inversion E; subst; reflexivity.
+  - inversion E; subst. unfold validate_and_handle, reset_buf.
+    destruct ((vst (validate_sync s ok epos true) =? 1) && negb keep); [|apply cfg_validate_sync].
+    destruct ((len [] <? 0) || (0 <? 0)); cbn [fst]; simp; apply cfg_validate_sync.
 Qed.
 
 Lemma cfg_run ls : forall s, cfg (run s ls) = cfg s.
